@@ -346,3 +346,22 @@ ADDED13 = {
 for _pid, _extra in ADDED13.items():
     t, text, note, ref = CLAIMED[_pid]
     CLAIMED[_pid] = (t, text + _extra, note, ref)
+ADDED14 = {
+ "C01": " Round 14: a function that has bound the error of a callee answers success only behind the test that found it nil (C03.checked-first as C01.errors-surface); a parameter list or body handed to a function of the package that builds the closure is followed to the call site.",
+ "C03": " Round 14: no catch handler of the embedded headers throws anything but the variable it caught (C03.lisp-handlers).",
+ "C05": " Round 14: the reader hands the scanner no hooks (C06.token-rules as C05.token-rules); nothing the reader's entry point reaches calls the entry point or the tokenizer again (C05.single-text).",
+ "C06": " Round 14: single-token readers take one token and do not call themselves or peek through a helper (C16.one-token as C06.one-token); the literal identifiers may also come from a table of the package; the string cases of read_atom are followed into the functions it hands a token kind on to.",
+ "C07": " Round 14: every mutex acquired in lib/concurrent and env is released on every return, by an unlock on the path or a deferred unlock registered before that return and releasing the mode held (C07.release; the pair rules of C09/C10/C11 are flow-sensitive about the defer likewise).",
+ "C09": " Round 14: swap! is registered without an upper bound on its arguments (C09.swap-arity).",
+ "C10": " Round 14: the function the body goroutine runs is started by the go statement and called from nowhere else; every receive from an outcome channel in the package, not only in Deref, is followed by the re-deposit.",
+ "C11": " Round 14: C09.lisp-monotone adopted (a memoising header does not park a placeholder in the shared table).",
+ "C12": " Round 14: the quasiquote arm never returns its expansion as the value of the form (C12.qq-evaluated); the macro test may be a merge of false and GetMacro().",
+ "C13": " Round 14: the kinds of argument each lisp-value parameter of the lib/core builtins accepts and refuses are compared with a confirmed table (C13.domain-table, three-valued: undecidable cases give no verdict); C03.checked-first adopted as C13.errors-surface; keyword? and string? decide by the same prefix test (C06.marker as C13.predicate-marker); the test that ends a counted loop is no range verdict.",
+ "C16": " Round 14: the read-string builtin is an entry point of the stateless reader too.",
+ "C17": " Round 14: the read-string builtin hands the reader no cursor of its own (C17.read-string-cursor).",
+ "C18": " Round 14: the printer and every LispPrint method only read the value they print (C18.print-pure).",
+ "C20": " Round 14: after the call of a Go function value, types.Apply returns that call's own value and error (C20.apply-verbatim); the count check may live in a function that panics unless the count is within the bounds (what a callee establishes by returning normally holds after the call).",
+}
+for _pid, _extra in ADDED14.items():
+    t, text, note, ref = CLAIMED[_pid]
+    CLAIMED[_pid] = (t, text + _extra, note, ref)
